@@ -1146,4 +1146,15 @@ theorem stubN_okRes_run {fs fsc : Fs} {inp out p : Path} {fmt : List Char} {b : 
   refine ⟨rfl, ?_, ?_, ?_, ?_, ?_⟩ <;>
     simp [fget_fset, filesSuffix]
 
+/-! ## process converters -/
+
+/-- the writes of a process run stay below its output directory -/
+theorem fget_writeRel (out : Path) (files : List (Path × Node)) (fs : Fs) (q : Path) (hq : under out q = false) :
+    fget (writeRel out files fs) q = fget fs q := by
+  induction files generalizing fs with
+  | nil => rfl
+  | cons e r ih =>
+    simp only [writeRel]
+    rw [ih, fget_fset_below _ hq]
+
 end Proofs.Export
